@@ -7,6 +7,7 @@ Property theorems over `Model/Frozen.lean` (heap model of flax/core/frozen_dict.
 import Lean.Elab.Tactic
 import Flax.Model.Frozen
 import Flax.Model.Struct
+import Flax.Model.FrozenList
 
 namespace Flax.C15
 open Flax.Frozen
@@ -3833,5 +3834,172 @@ theorem mutating_field_counterexample :
       ≠ [[("units", 7)]] ∧
     Struct.declare [[("units", 7)]] [⟨"origin", true, some 0⟩, ⟨"size", false, some 0⟩]
       = [("origin", true), ("size", false)] := by decide
+
+/-! ## `unfreeze` shares no mutable container with the FrozenDict — lists and tuples included
+
+Over `Model/FrozenList.lean`: heap objects dict / list / tuple / FrozenDict; `unfreeze(fd)` =
+`tree_map(lambda y: y, fd._dict)` rebuilds every pytree node. -/
+
+/-- `c` is reachable from `a` through any container (dict values, list / tuple items, a FrozenDict's `_dict`) -/
+inductive ReachL (h : FrozenL.Heap) : Nat → Nat → Prop where
+  | refl (a : Nat) : ReachL h a a
+  | step {a b c : Nat} {o : FrozenL.Obj} :
+      h[a]? = some o → FrozenL.Val.ref b ∈ o.children → ReachL h b c → ReachL h a c
+
+/-- every object allocated at or above `base` refers only to objects at or above `base` -/
+private def NewClosed (base : Nat) (h : FrozenL.Heap) : Prop :=
+  ∀ (a : Nat) (o : FrozenL.Obj), base ≤ a → h[a]? = some o → ∀ b : Nat, FrozenL.Val.ref b ∈ o.children → base ≤ b
+
+private theorem getL_append_one {h : FrozenL.Heap} {o x : FrozenL.Obj} {a : Nat} (hg : (h ++ [o])[a]? = some x) :
+    h[a]? = some x ∨ (a = h.length ∧ x = o) := by
+  rcases Nat.lt_trichotomy a h.length with h1 | h1 | h1
+  · rw [List.getElem?_append_left h1] at hg; exact Or.inl hg
+  · subst h1; simp at hg; exact Or.inr ⟨rfl, hg.symm⟩
+  · rw [List.getElem?_eq_none (by simp; omega)] at hg; cases hg
+
+private theorem NewClosed.alloc {base : Nat} {h : FrozenL.Heap} (hc : NewClosed base h) (o : FrozenL.Obj)
+    (ho : ∀ b : Nat, FrozenL.Val.ref b ∈ o.children → base ≤ b) : NewClosed base (h ++ [o]) := by
+  intro a x ha hg b hb
+  rcases getL_append_one hg with h1 | ⟨_, h2⟩
+  · exact hc a x ha h1 b hb
+  · subst h2; exact ho b hb
+
+/-- what a successful walk guarantees, relative to a base address -/
+private def WalkOk (base : Nat) (h : FrozenL.Heap) (r : FrozenL.Heap × FrozenL.Val) : Prop :=
+  (∃ ext, r.1 = h ++ ext) ∧ NewClosed base r.1 ∧ ∀ b : Nat, r.2 = FrozenL.Val.ref b → h.length ≤ b
+
+private theorem mapVals_fresh (f : FrozenL.Heap → FrozenL.Val → Option (FrozenL.Heap × FrozenL.Val)) (base : Nat)
+    (hf : ∀ h v r, base ≤ h.length → NewClosed base h → f h v = some r → WalkOk base h r) :
+    ∀ (vs : List FrozenL.Val) (h h' : FrozenL.Heap) (vs' : List FrozenL.Val), base ≤ h.length → NewClosed base h →
+      FrozenL.mapVals f h vs = some (h', vs') →
+      (∃ ext, h' = h ++ ext) ∧ NewClosed base h' ∧ ∀ b : Nat, FrozenL.Val.ref b ∈ vs' → base ≤ b := by
+  intro vs
+  induction vs with
+  | nil =>
+    intro h h' vs' _ hc hm
+    simp [FrozenL.mapVals] at hm; obtain ⟨rfl, rfl⟩ := hm
+    exact ⟨⟨[], by simp⟩, hc, by simp⟩
+  | cons v rest ih =>
+    intro h h' vs' hb hc hm
+    simp only [FrozenL.mapVals] at hm
+    split at hm
+    · cases hm
+    · rename_i h1 v1 hfv
+      split at hm
+      · cases hm
+      · rename_i h2 rest' hrest
+        simp at hm; obtain ⟨rfl, rfl⟩ := hm
+        obtain ⟨⟨e1, he1⟩, c1, f1⟩ := hf h v (h1, v1) hb hc hfv
+        simp only at he1 c1 f1
+        have hb1 : base ≤ h1.length := by rw [he1]; simp; omega
+        obtain ⟨⟨e2, he2⟩, c2, f2⟩ := ih h1 _ _ hb1 c1 hrest
+        refine ⟨⟨e1 ++ e2, by rw [he2, he1]; simp⟩, c2, ?_⟩
+        intro b hbm
+        simp at hbm
+        rcases hbm with hbm | hbm
+        · have := f1 b hbm.symm; omega
+        · exact f2 b hbm
+
+private theorem mem_zip_snd {ks : List String} {vs : List FrozenL.Val} {p : String × FrozenL.Val}
+    (hp : p ∈ ks.zip vs) : p.2 ∈ vs := (List.of_mem_zip hp).2
+
+private theorem walkOk_alloc {base : Nat} {h h1 e1 : FrozenL.Heap} (he1 : h1 = h ++ e1) (c1 : NewClosed base h1)
+    (o : FrozenL.Obj) (ho : ∀ b : Nat, FrozenL.Val.ref b ∈ o.children → base ≤ b) :
+    WalkOk base h (h1 ++ [o], .ref h1.length) := by
+  refine ⟨⟨e1 ++ [o], by rw [he1]; simp⟩, c1.alloc o ho, ?_⟩
+  intro b hb
+  injection hb with hb
+  rw [← hb, he1]; simp
+
+private theorem rebuild_fresh (base : Nat) : ∀ (n : Nat) (h : FrozenL.Heap) (v : FrozenL.Val) (r : FrozenL.Heap × FrozenL.Val),
+    base ≤ h.length → NewClosed base h → FrozenL.rebuild .all n h v = some r → WalkOk base h r := by
+  intro n
+  induction n with
+  | zero =>
+    intro h v r _ hc hr
+    cases v with
+    | leaf k => simp [FrozenL.rebuild] at hr; subst hr; exact ⟨⟨[], by simp⟩, hc, by simp⟩
+    | ref a => simp [FrozenL.rebuild] at hr
+  | succ n ih =>
+    intro h v r hb hc hr
+    cases v with
+    | leaf k => simp [FrozenL.rebuild] at hr; subst hr; exact ⟨⟨[], by simp⟩, hc, by simp⟩
+    | ref a =>
+      simp only [FrozenL.rebuild] at hr
+      split at hr
+      · cases hr
+      · rename_i kvs hg
+        split at hr
+        · cases hr
+        · rename_i h1 vs hm
+          simp at hr; subst hr
+          obtain ⟨⟨e1, he1⟩, c1, f1⟩ := mapVals_fresh _ base (fun h v r hb hc hr => ih h v r hb hc hr) _ _ _ _ hb hc hm
+          refine walkOk_alloc he1 c1 _ ?_
+          intro b hbm
+          simp only [FrozenL.Obj.children, List.mem_map] at hbm
+          obtain ⟨p, hp, hp2⟩ := hbm
+          exact f1 b (hp2 ▸ mem_zip_snd hp)
+      · rename_i xs hg
+        split at hr
+        · cases hr
+        · rename_i h1 vs hm
+          simp at hr; subst hr
+          obtain ⟨⟨e1, he1⟩, c1, f1⟩ := mapVals_fresh _ base (fun h v r hb hc hr => ih h v r hb hc hr) _ _ _ _ hb hc hm
+          exact walkOk_alloc he1 c1 _ (fun b hbm => f1 b (by simpa [FrozenL.Obj.children] using hbm))
+      · rename_i xs hg
+        split at hr
+        · cases hr
+        · rename_i h1 vs hm
+          simp at hr; subst hr
+          obtain ⟨⟨e1, he1⟩, c1, f1⟩ := mapVals_fresh _ base (fun h v r hb hc hr => ih h v r hb hc hr) _ _ _ _ hb hc hm
+          exact walkOk_alloc he1 c1 _ (fun b hbm => f1 b (by simpa [FrozenL.Obj.children] using hbm))
+      · rename_i i hg
+        split at hr
+        · cases hr
+        · rename_i h1 j hrec
+          simp at hr; subst hr
+          obtain ⟨⟨e1, he1⟩, c1, f1⟩ := ih h (.ref i) (h1, .ref j) hb hc hrec
+          simp only at he1 c1 f1
+          refine walkOk_alloc he1 c1 _ ?_
+          intro b hbm
+          simp [FrozenL.Obj.children] at hbm
+          have := f1 b (by rw [hbm]); omega
+        · cases hr
+
+private theorem reachL_stays_new {base : Nat} {h : FrozenL.Heap} (hc : NewClosed base h) {a c : Nat}
+    (hr : ReachL h a c) : base ≤ a → base ≤ c := by
+  induction hr with
+  | refl a => exact id
+  | step hg hm _ ih => intro ha; exact ih (hc _ _ ha hg _ hm)
+
+/-- **`unfreeze(fd)` shares no mutable container with `fd` (nor with anything else)**: the old heap is
+untouched and *every* container reachable from the returned value — dicts, lists, tuples, at every depth,
+through lists of dicts, dicts inside lists inside dicts, tuples of lists, nested FrozenDicts — was
+allocated by this very call.  So mutating the result in place (setitem, append, del, at any depth) cannot
+reach an object `fd` is made of. -/
+theorem unfreeze_shares_no_mutable_container (h h' : FrozenL.Heap) (f : Nat) (v' : FrozenL.Val)
+    (hu : FrozenL.unfreeze .all h f = some (h', v')) :
+    (∃ ext, h' = h ++ ext) ∧ ∀ b c : Nat, v' = FrozenL.Val.ref b → ReachL h' b c → h.length ≤ c := by
+  simp only [FrozenL.unfreeze] at hu
+  split at hu
+  · rename_i i hf
+    have hc0 : NewClosed h.length h := by
+      intro a o ha hg
+      rw [List.getElem?_eq_none ha] at hg; cases hg
+    obtain ⟨he, c1, f1⟩ := rebuild_fresh h.length _ h (.ref i) (h', v') (Nat.le_refl _) hc0 hu
+    exact ⟨he, fun b c hb hr => reachL_stays_new c1 hr (f1 b hb)⟩
+  · cases hu
+
+/-- counter-example for a walk that treats every non-dict as a leaf (`Walk.dictsOnly`, not the model's
+`unfreeze`): `fd = freeze({'layers': [{'w': 1}]})` — the result's `'layers'` is the very list object
+(address 1) stored in `fd`, and through it the dict (address 0) inside. -/
+theorem unfreeze_dictsOnly_counterexample :
+    let h : FrozenL.Heap := [.dict [("w", .leaf 1)], .list [.ref 0], .dict [("layers", .ref 1)], .frozen 2]
+    (match FrozenL.unfreeze .dictsOnly h 3 with
+     | some (h', v') => decide (1 ∈ FrozenL.reachList 5 h' v' ∧ 0 ∈ FrozenL.reachList 5 h' v')
+     | none => false) = true ∧
+    (match FrozenL.unfreeze .all h 3 with
+     | some (h', v') => (FrozenL.reachList 5 h' v').all (fun a => decide (4 ≤ a))
+     | none => false) = true := by decide
 
 end Flax.C15
